@@ -22,7 +22,16 @@ Inductive sstep :=
                    (* one Add; the clock jumps by d INSIDE the first call the run loop makes on the
                       clock while handling its token (NewTimer, or Stop of the window's timer);
                       fired = such a call was made *)
-| KAdvH (d d2 : Z) (fired : bool).
+| KAdvH (d d2 : Z) (fired : bool)
+| KAddA (on_reset fired : bool) (before : Z)
+                   (* one Add; from INSIDE a call the run loop makes on the clock while handling its
+                      token (the first NewTimer / Stop call, or - on_reset - the Reset call) a second
+                      Add is issued on another goroutine; fired = such a call was made, i.e. the
+                      second Add was issued; before = signals of this step already SEEN when the
+                      second Add was issued (a lower bound) *)
+| KAdvA (d : Z) (fired : bool) (before : Z).
+                   (* the clock advances by d; if the window's timer expires, an Add is issued from
+                      inside the Stop call of handleTimerFired's reset *)
                    (* the clock advances by d; if the window's timer expires, the clock jumps by d2
                       inside the Stop call of handleTimerFired's reset *)
 
@@ -111,6 +120,34 @@ Definition outcomes (v : variant) (c : cfg) (s : state) (k : sstep) : list state
             | Some s2 => explore 8 v c s2 0 None
             | None => []
             end
+          else []
+      | None => []
+      end
+  | KAddA on_reset fired _ =>
+      (* the nested Add waits for the lock the handler holds: it is counted after the handler *)
+      match exec v c s [Model.Add; TakeToken] with
+      | Some s1 =>
+          let extend := has_timer s1 && negb (cap_reached c (pending s1)) in
+          let calls := if on_reset then extend else negb (has_timer s1) || extend in
+          if Bool.eqb calls fired then
+            match exec v c s1 ([HandleToken; LoopTop] ++
+                               (if fired then [Model.Add; TakeToken; HandleToken; LoopTop] else [])) with
+            | Some s2 => explore 8 v c s2 0 None
+            | None => []
+            end
+          else []
+      | None => []
+      end
+  | KAdvA d fired _ =>
+      match step v c s (Advance d) with
+      | Some s1 =>
+          if Bool.eqb (timer_due s1) fired then
+            if fired then
+              match exec v c s1 [TakeTimer; TimerFire; LoopTop; Model.Add; TakeToken; HandleToken; LoopTop] with
+              | Some s2 => [s2]
+              | None => []
+              end
+            else [s1]
           else []
       | None => []
       end
@@ -267,27 +304,36 @@ Definition model_agrees (v : variant) (k : case) : bool :=
 Definition is_seq_step (k : sstep) : bool :=
   match k with KAdd | KAdv _ | KDrain => true | _ => false end.
 
-Definition sop_of (k : sstep) : sop :=
+(* the operations a sequential step stands for, in their order *)
+Definition sops_of (k : sstep) : list sop :=
   match k with
-  | KAdv d => PAdv d
-  | KDrain => PDrain
-  | _ => PAdd
+  | KAdd => [PAdd]
+  | KAdv d => [PAdv d]
+  | KDrain => [PDrain]
+  | _ => []
   end.
 
-Definition wobs_of (a : list act) : option wobs :=
+Definition wob_of (a : act) : option wobs :=
   match a with
-  | [] => Some WNone
-  | [ANew d] => Some (WStart d)
-  | [AExt d] => Some (WStart d)
-  | [AExp] => Some WEnd
-  | _ => None
+  | ANew d | AExt d => Some (WStart d)
+  | AExp => Some WEnd
+  | AOdd => None
   end.
 
-Fixpoint sobs_of (steps : list (sstep * (list act * Z))) : option (list sobs) :=
+Fixpoint wobs_of (a : list act) : option (list wobs) :=
+  match a with
+  | [] => Some []
+  | x :: a' => match wob_of x, wobs_of a' with
+               | Some w, Some l => Some (w :: l)
+               | _, _ => None
+               end
+  end.
+
+Fixpoint gobs_of (steps : list (sstep * (list act * Z))) : option (list gobs) :=
   match steps with
   | [] => Some []
   | (_, (oa, os)) :: rest =>
-      match wobs_of oa, sobs_of rest with
+      match wobs_of oa, gobs_of rest with
       | Some w, Some l => Some ((os, w) :: l)
       | _, _ => None
       end
@@ -298,11 +344,21 @@ Definition adds_of (k : sstep) : Z :=
   | KAdd | KRace _ => 1
   | KBurst n => n
   | KAddH _ _ => 1
+  | KAddA _ fired _ => if fired then 2 else 1
+  | KAdvA _ fired _ => if fired then 1 else 0
   | _ => 0
   end.
 
+(* per step: (Adds issued, signals seen).  A step with a nested Add is split where that Add was
+   issued: the signals already seen then cannot be the ones that "follow" it. *)
 Definition timeline (steps : list (sstep * (list act * Z))) : list (Z * Z) :=
-  map (fun p => (adds_of (fst p), snd (snd p))) steps.
+  flat_map (fun p =>
+    let os := snd (snd p) in
+    match fst p with
+    | KAddA _ true b => let b' := Z.max 0 (Z.min b os) in [(1, b'); (1, os - b')]
+    | KAdvA _ true b => let b' := Z.max 0 (Z.min b os) in [(0, b'); (1, os - b')]
+    | k => [(adds_of k, os)]
+    end) steps.
 
 (* was the script flushed: since the last Add the clock advanced by at least the maximum delay
    (no window is longer), and a slow consumer drained after that *)
@@ -314,6 +370,7 @@ Fixpoint flushed_from (c : cfg) (since : Z) (drained : bool) (steps : list sstep
       | KAdv d => flushed_from c (since + d) drained rest
       | KDrain => flushed_from c since (drained || (maxd c <=? since)) rest
       | KAdvH d d2 fired => flushed_from c (since + d + (if fired then d2 else 0)) drained rest
+      | KAdvA d fired _ => if fired then flushed_from c 0 false rest else flushed_from c (since + d) drained rest
       | _ => flushed_from c 0 false rest
       end
   end.
@@ -336,7 +393,7 @@ Fixpoint cap_walk (c : cfg) (st : option ref) (steps : list (sstep * (list act *
           cap_burst_oracle c p n os && (if idle then idle_burst_oracle n os else true) &&
           cap_walk c None rest
       | KAdd | KAdv _ =>
-          cap_walk c (option_map (fun r => fst (fst (ref_step c r (sop_of k)))) st) rest
+          cap_walk c (option_map (fun r => fst (ref_group false c r (sops_of k))) st) rest
       | _ => cap_walk c None rest
       end
   end.
@@ -346,8 +403,8 @@ Definition oracle (k : case) : bool :=
   | CScript c slow steps f rr cr leak =>
       let ks := map fst steps in
       (if forallb is_seq_step ks then
-         match sobs_of steps with
-         | Some obs => seq_oracle slow c (map sop_of ks) obs
+         match gobs_of steps with
+         | Some obs => seqg_oracle slow c (map sops_of ks) obs
          | None => false
          end
        else true) &&
